@@ -49,8 +49,10 @@ pub uninterp spec fn r_epsilon() -> real;   // expr::EPSILON, a tiny positive co
 #[verifier::external_body] pub proof fn ax_pow2() ensures forall|x: real| #[trigger] r_pow(x, 2real) == x * x {}
 /// Map builder: the fields it was given, by name (a later field with the same name replaces the earlier one)
 pub struct MapB { pub fields: Ghost<Map<Str, Expr>> }
+pub trait QxWithArg: Sized { spec fn apply(self, f: Map<Str, Expr>) -> Map<Str, Expr>; }
+impl<N: QxName> QxWithArg for (N, Expr) { open spec fn apply(self, f: Map<Str, Expr>) -> Map<Str, Expr> { f.insert(self.0.nm(), self.1) } }
 impl MapB {
-    #[verifier::external_body] pub fn with<N: QxName>(self, f: (N, Expr)) -> (r: Self) ensures r.fields@ == self.fields@.insert(f.0.nm(), f.1) { unimplemented!() }
+    #[verifier::external_body] pub fn with<A: QxWithArg>(self, a: A) -> (r: Self) ensures r.fields@ == a.apply(self.fields@) { unimplemented!() }
 }
 pub open spec fn has_field(b: MapB, name: Str, f: spec_fn(Row) -> real) -> bool {
     b.fields@.contains_key(name) && forall|row: Row| #[trigger] b.fields@[name].at(row) == f(row)
